@@ -15,8 +15,8 @@
    (finding vtt-ruby-structure).  The triggers of vtt-empty-file, vtt-cue-without-payload, stl-bad-tcp, stl-bad-mnr,
    srt-stray-end-tag, vtt-rt-outside-ruby, stl-zero-block-count, stl-cumulative-block-first, vtt-stray-end-tag,
    vtt-percentage-overflow, srt-font-color-without-value and stl-zero-row-count went with the repairs of the code. *)
-From TT Require Import Base.Prelude Model.Outcome Model.ReaderGuards Spec.RobustSpec.
-From TT Require Import Proofs.C18.SpecLink Proofs.C18.Srt Proofs.C18.Vtt Proofs.C18.Scc Proofs.C18.Stl Proofs.C18.Statements.
+From TT Require Import Base.Prelude Model.Outcome Gen.GuardTables Model.ReaderGuards Spec.RobustSpec Model.GuardCueCases.
+From TT Require Import Proofs.C18.SpecLink Proofs.C18.Srt Proofs.C18.Vtt Proofs.C18.Scc Proofs.C18.Stl Proofs.C18.Statements Proofs.C18.CueText.
 
 (* ---- 1. SRT --------------------------------------------------------------------------------------------------- *)
 (* every internal error of the SRT reader guard is one the cue-text parser raised: the line machine itself (which
@@ -61,6 +61,28 @@ Theorem C18_srt_composed_total : forall cues content,
 Proof. exact srt_composed_total_ok. Qed.
 Print Assumptions C18_srt_composed_total.
 
+(* the time-code line after repository commit 4d63802: an hour field of ANY width of two or more ASCII digits is matched (the SRT writer
+   prints as many digits as the hours need), whatever follows *)
+Theorem C18_srt_hour_field_any_width : forall hh m1 m2 s1 s2 f1 f2 f3 rest,
+  forallb ascii_digit hh = true -> (2 <= length hh)%nat -> forallb ascii_digit [m1; m2; s1; s2; f1; f2; f3] = true ->
+  srt_ts (hh ++ 58 :: m1 :: m2 :: 58 :: s1 :: s2 :: 44 :: f1 :: f2 :: f3 :: rest) = Some (Z.of_nat (length hh), rest).
+Proof. exact srt_ts_any_hours. Qed.
+Print Assumptions C18_srt_hour_field_any_width.
+
+(* ... and where a format error (a documented outcome) of the SRT guard comes from: the cue-text parser (a colour parse_color rejects), or
+   int() of an hour field with more digits than the interpreter converts — which needs a line longer than that limit *)
+Theorem C18_srt_format_error_origin : forall oracle content k,
+  srt_run oracle content = FormatError k ->
+  In (SubFormat k) oracle \/ (k = ValueErr /\ existsb (fun l => sv_tc_long (srt_classify l)) (readlines content) = true).
+Proof. exact srt_run_format. Qed.
+Print Assumptions C18_srt_format_error_origin.
+
+Theorem C18_srt_format_error_short_lines : forall oracle content k,
+  (forall l, In l (readlines content) -> Z.of_nat (length l) <= int_max_str_digits) ->
+  srt_run oracle content = FormatError k -> In (SubFormat k) oracle.
+Proof. exact srt_run_format_short. Qed.
+Print Assumptions C18_srt_format_error_short_lines.
+
 (* ---- 2. WebVTT ------------------------------------------------------------------------------------------------ *)
 (* on every text, the empty one included, with any cue settings (lab commit cb365b8 removed the last trigger, a percentage
    that overflows a float) *)
@@ -97,6 +119,14 @@ Theorem C18_vtt_cursor_never_above_paragraph : forall (attached : bool) events c
   exists pre, c_path c = pre ++ KP :: tail.
 Proof. exact vtt_cursor_never_above_p. Qed.
 Print Assumptions C18_vtt_cursor_never_above_paragraph.
+
+(* the exact trigger of finding vtt-ruby-structure on a cue TEXT (tokenizer included) is C11's model of _parse_cue_text, which the check
+   evaluates on every cue text of a run (Model/GuardCueCases.v cue_class): for every text it returns (0), raises TypeError (21) or raises
+   RuntimeError (29) — C11_cue_text_exceptions in C18's codes.  Any other exception of the code, and a TypeError / RuntimeError on a text for
+   which cue_class computes something else, is therefore a violation, ruby or not *)
+Theorem C18_vtt_cue_text_classes : forall cue_text, cue_class cue_text = 0 \/ cue_class cue_text = 21 \/ cue_class cue_text = 29.
+Proof. exact cue_class_values. Qed.
+Print Assumptions C18_vtt_cue_text_classes.
 
 (* line machine and cursor together, for files whose cues have no <ruby> tag; remaining oracle: the tokenizer *)
 Theorem C18_vtt_composed_partial : forall cues content,
@@ -159,6 +189,30 @@ Example C18_srt_runs :
   /\ srt_calls [] [49;10;48;48;58;48;48;58;48;49;44;48;48;48;32;45;45;62;32;48;48;58;48;48;58;48;50;44;48;48;48;10;104;101;108;108;111;10;10;50;10] = [true]
   /\ srt_run [] [104; 105; 10] = OkNone.
 Proof. repeat split; vm_compute; reflexivity. Qed.
+
+(* "1000:00:00,000 --> 12345:00:01,000\n" is a time-code line; with an hour field of 4301 digits the reader raises ValueError (int()), with
+   4300 digits it does not *)
+Definition C18_tc_line (h : text) : text :=
+  h ++ [58;48;48;58;48;48;44;48;48;48;32;45;45;62;32;49;50;51;52;53;58;48;48;58;48;49;44;48;48;48;10].
+Example C18_srt_hour_widths_classified :
+  srt_classify (C18_tc_line [49;48;48;48]) = {| sv_blank := false; sv_counter := true; sv_tc := true; sv_tc_long := false |}.
+Proof. vm_compute. reflexivity. Qed.
+Example C18_srt_hour_4301_digits : srt_run [] ([49;10] ++ C18_tc_line (repeat 49 4301) ++ [120;10]) = FormatError ValueErr.
+Proof. vm_compute. reflexivity. Qed.
+Example C18_srt_hour_4300_digits : srt_run [] ([49;10] ++ C18_tc_line (repeat 49 4300) ++ [120;10]) = OkDoc.
+Proof. vm_compute. reflexivity. Qed.
+(* the hypothesis of C18_srt_format_error_short_lines is satisfiable *)
+Example C18_srt_short_lines_applies :
+  forall l, In l (readlines ([49;10] ++ C18_tc_line [49;48;48;48])) -> Z.of_nat (length l) <= int_max_str_digits.
+Proof. intros l H. vm_compute in H. destruct H as [H|[H|[]]]; subst; vm_compute; discriminate. Qed.
+
+(* the predicate of finding vtt-ruby-structure takes its three values: <b><ruby>, <ruby><b>, and a ruby whose annotation holds formatting
+   nested two deep, followed by more base text and another annotation ("<ruby>a<rt><c><i>x</i></c></rt>b<rt>y</rt></ruby>") *)
+Example C18_vtt_cue_text_classes_reached :
+  cue_class [60;98;62;60;114;117;98;121;62] = 21
+  /\ cue_class [60;114;117;98;121;62;60;98;62] = 29
+  /\ cue_class [60;114;117;98;121;62;97;60;114;116;62;60;99;62;60;105;62;120;60;47;105;62;60;47;99;62;60;47;114;116;62;98;60;114;116;62;121;60;47;114;116;62;60;47;114;117;98;121;62] = 0.
+Proof. exact cue_class_examples. Qed.
 
 (* "Scenarist_SCC V1.0\n\n00:00:00:00\t9420 9470 c1c2\n" is read; "00:00:00:00\t94zz\n" is a ValueError *)
 Example C18_scc_runs :
